@@ -271,3 +271,10 @@ HOMONYMOUS_SUBSUITE_SETUP_FAILS = _case(
            suites=[_s("login", [_t("t", [], [_LOG])], setup_suite={"params": [], "script": [_ERR]}, teardown_suite=[_LOG])])]),
     _cfg(2, "fifo"))
 CONTROLS4 = [HOMONYMOUS_TEST_AND_SUBSUITE, HOMONYMOUS_TEST_AND_SUBSUITE_SEQ, HOMONYMOUS_SUBSUITE_SETUP_FAILS]
+
+# a reporting backend handler that ends with an exception class the iteration / generator / interpreter protocols treat
+# specially: a bare `next(it)` on an exhausted iterator (StopIteration), its async twin, a generator closed under the
+# handler (GeneratorExit), `sys.exit()`, a KeyboardInterrupt raised on the event-handling thread.  The first two are
+# ordinary Exceptions for `_handler_loop`; the last three are not caught by its `except Exception` (finding D42).
+PROTOCOL_FAULTS = [dict(EMPTY_BACKEND_ERROR, fault={"k": 3, "cls": c, "text": "backend boom"})
+                   for c in ("StopIteration", "StopAsyncIteration", "GeneratorExit", "SystemExit", "KeyboardInterrupt")]
